@@ -35,8 +35,14 @@ def gen_frame(seed, cooldown=None, scenario=None, min_pre=5):
         c = sc * (10 + rng.gauss(0, 1)) + (sc * rng.choice([6.0, 12.0]) if (grp == 2 and in_test) else 0.0)
       cost.append(round(c * 8) / 8)
     geos.append({'id': g + 1, 'group': grp, 'response': resp, 'cost': cost})
+  int_values = random.Random(seed * 43 + 5).random() < 0.2
+  if int_values:
+    # counts: whole numbers, stored in integer columns
+    for g in geos:
+      g['response'] = [float(round(v)) for v in g['response']]
+      g['cost'] = [float(round(v)) for v in g['cost']]
   return {'seed': seed, 'n_pre': n_pre, 'n_test': n_test, 'n_cool': n_cool, 'geos': geos, 'scenario': scenario,
-          'custom_names': random.Random(seed * 41 + 1).random() < 0.3}
+          'custom_names': random.Random(seed * 41 + 1).random() < 0.3, 'int_values': int_values}
 
 
 NAMING = {'key_geo': 'market', 'key_date': 'day', 'key_period': 'phase', 'key_group': 'arm', 'key_response': 'sales',
@@ -103,6 +109,9 @@ def build_df0(spec, shuffle=None, extra=False, split=False):
         recs.append({'geo': g['id'], 'date': t0 - pd.Timedelta(days=k), 'period': -1, 'group': g['group'],
                      'response': 1000.0 * k, 'cost': 50.0})
   df = pd.DataFrame(recs)
+  if spec.get('int_values') and all(float(v).is_integer() for c in ('response', 'cost') for v in df[c]):
+    df['response'] = df['response'].astype('int64')
+    df['cost'] = df['cost'].astype('int64')
   if shuffle is not None:
     df = df.sample(frac=1.0, random_state=shuffle % (2 ** 31)).reset_index(drop=True)
   return df.set_index('date')
